@@ -111,8 +111,14 @@ def _s6_to_s9(program, res):
                         binds = True
     by_index = [n for n in ast.walk(ca.node) if isinstance(n, ast.Subscript) and isinstance(n.value, ast.Name) and n.value.id == "arg_names"
                 and isinstance(n.slice, ast.Name)]
-    filters_kinds = ".kind" in unparse(call.node)
-    if binds or (by_index and filters_kinds) or not by_index:
+    # the list of names handed over as arg_names is filtered by parameter kind
+    filters_kinds = any(isinstance(c_, (ast.ListComp, ast.GeneratorExp)) and "parameters" in unparse(c_.generators[0].iter)
+                        and any(".kind" in unparse(i_) for i_ in c_.generators[0].ifs) for c_ in ast.walk(call.node))
+    if binds and "VAR_KEYWORD" not in unparse(call.node):
+        res.fail_at("C22-S7", call, "bound-kwargs-not-flattened",
+                    "the arguments are bound by signature, but a keyword caught by **kwargs then sits under the name of that parameter: for def f(a, **kw) with a "
+                    "specification for b, f(1, b='x') is reported 'expected arg b missing' (nothing reads the VAR_KEYWORD parameter's dictionary back into the named arguments)")
+    elif binds or (by_index and filters_kinds) or not by_index:
         res.ok("C22-S7", "positional arguments are matched to parameter names by the signature's own binding (or parameter kinds are filtered)")
     else:
         res.fail_at("C22-S7", ca, "positional-binding-by-index",
